@@ -132,3 +132,74 @@ Theorem C13_lane16_simple_filter_eq : forall p1 p0 q0 q1 thresh,
   simple_filter_lane p1 p0 q0 q1 thresh = simple_filter_go p1 p0 q0 q1 thresh.
 Proof. exact lane16_simple_filter_eq. Qed.
 Print Assumptions C13_lane16_simple_filter_eq.
+
+(** Forward DCT: the 32-bit-lane algorithm (PMADDWD on saturating-packed
+    operands, saturating final pack) equals the portable one on all byte input. *)
+Theorem C13_lane32_fdct_eq : forall src ref, Forall byte src -> Forall byte ref ->
+  lane32_fdct src ref = ftransform src ref.
+Proof. exact lane32_fdct_eq. Qed.
+Print Assumptions C13_lane32_fdct_eq.
+
+(** Encoder-side reachability: every forward-DCT coefficient is within +-2040,
+    so the forward WHT (fed with sixteen DCT DCs) stays inside its no-wrap range. *)
+Theorem C13_lane16_fwht_eq_on_encoder_input : forall dcs,
+  Forall (fun dc => exists src ref s r, blk16 src = Ok s /\ blk16 ref = Ok r /\ Forall byte src /\ Forall byte ref /\
+                    dc = nth 0 (listM (fdct_core (map2M Z.sub s r))) 0) dcs ->
+  lane16_fwht dcs = ftransform_wht dcs.
+Proof. exact lane16_fwht_eq_on_encoder_input. Qed.
+Print Assumptions C13_lane16_fwht_eq_on_encoder_input.
+
+(** YUV -> RGB of the fancy upsampler: PMADDWD / PSRAD / saturating packs (with
+    16525 >> 7 for the coefficient 33050 that does not fit a 16-bit lane) equal
+    YUVToRGB for all byte triples. *)
+Theorem C13_lane32_yuv_eq : forall y u v, byte y -> byte u -> byte v ->
+  l_yuv_r y v = yuv_r y v /\ l_yuv_g y u v = yuv_g y u v /\ l_yuv_b y u = yuv_b y u.
+Proof. exact lane32_yuv_eq. Qed.
+Print Assumptions C13_lane32_yuv_eq.
+
+(** Hadamard-domain distortion with the weights of the source (regenerated). *)
+From Webp Require Import Arch.ArchLane16Tables.
+From WebpGen Require Tables Consts.
+Theorem C13_lane16_tdisto_eq : forall a b, Forall byte a -> Forall byte b ->
+  l_tdisto WebpGen.Tables.dsp_kWeightY a b = tdisto WebpGen.Tables.dsp_kWeightY a b.
+Proof. exact lane16_tdisto_eq_src. Qed.
+Print Assumptions C13_lane16_tdisto_eq.
+
+(** Tie to the source: the constants of transforms.go are the models' constants. *)
+Theorem C13_idct_constants_match :
+  WebpGen.Consts.dsp_c1 = kC1 /\ WebpGen.Consts.dsp_c2 = kC2 /\ WebpGen.Consts.dsp_BPS = 32.
+Proof. exact idct_constants_match. Qed.
+Print Assumptions C13_idct_constants_match.
+
+Theorem C13_yuv_constants_match :
+  WebpGen.Consts.dsp_kYScale = 19077 /\ WebpGen.Consts.dsp_kRCr = 26149 /\ WebpGen.Consts.dsp_kGCb = 6419 /\
+  WebpGen.Consts.dsp_kGCr = 13320 /\ WebpGen.Consts.dsp_kBCb = 2 * 16525 /\
+  WebpGen.Consts.dsp_kRBias = 14234 /\ WebpGen.Consts.dsp_kGBias = 8708 /\ WebpGen.Consts.dsp_kBBias = 17685.
+Proof. exact yuv_constants_match. Qed.
+Print Assumptions C13_yuv_constants_match.
+
+(** AC quantisation (one coefficient): equal whenever Go's uint32 product does
+    not wrap, in particular on everything the encoder can feed it. *)
+Theorem C13_lane_quant_eq : forall x sharpen iq bias,
+  -32767 <= x <= 32767 -> 0 <= sharpen -> Z.abs x + sharpen <= 32767 ->
+  0 <= iq < 4294967296 -> 0 <= bias ->
+  (Z.abs x + sharpen) * iq + bias < 4294967296 ->
+  quant_lane x sharpen iq bias = quant_go x sharpen iq bias.
+Proof. exact lane_quant_eq. Qed.
+Print Assumptions C13_lane_quant_eq.
+
+Theorem C13_lane_quant_eq_encoder : forall x sharpen iq bias,
+  -4095 <= x <= 4095 -> 0 <= sharpen <= 255 -> 0 <= iq <= 131072 -> 0 <= bias <= 1048576 ->
+  quant_lane x sharpen iq bias = quant_go x sharpen iq bias.
+Proof. exact lane_quant_eq_encoder. Qed.
+Print Assumptions C13_lane_quant_eq_encoder.
+
+(** range_reachable: the coefficients a valid stream delivers to the decoder's
+    IDCT, int16(level * dq) with |level| <= 2114 and dq in the AC table of the
+    source, are not contained in [in_range]; on such a block the kernels differ. *)
+Theorem C13_range_reachable_exceeds_in_range : exists coeffs pred,
+  Forall (reachable_coeff WebpGen.Tables.lossy_KAcTable) coeffs /\ List.length coeffs = 16%nat /\
+  Forall byte pred /\ ~ in_range coeffs /\
+  lane16_idct coeffs pred <> transform_one coeffs pred.
+Proof. exact range_reachable_exceeds_in_range. Qed.
+Print Assumptions C13_range_reachable_exceeds_in_range.
